@@ -1,40 +1,53 @@
 /-
 C01 — every candidate re-reads to exactly the input; only a leading run is converted.
 
-The full statement is `C01_statement`.  Its proof (lattice invariant through the five construction
-passes + `previous`-linked chains in the A* loop) is work in progress; meanwhile the tiling oracle is
-evaluated on every candidate the implementation returns in the correspondence run.
+Model: Chokan.Model.Kkc.  Proof: the lattice invariant through the five construction passes and the
+forward pass (Lemmas/KkcLattice), `previous`-linked chains through the A* loop using only that the heap
+returns what was put in (Lemmas/KkcSearch), and the tiling of a bos→eos chain (Lemmas/KkcTiling).
+The theorem holds for every table (`Tables`), dictionary, context, learned data, `n` and fuel.
 -/
-import Chokan.Lemmas.Kkc
+import Chokan.Lemmas.KkcTiling
 
 namespace Chokan.Props.C01
 open Chokan.Kkc Chokan.Dic
 
-/-- Dictionary well-formedness: every word is stored under its own non-empty reading. -/
-def Dict.WF (d : Dict) : Prop :=
-  (∀ p ∈ d.std, p.1 ≠ [] ∧ ∀ w ∈ p.2, w.reading = p.1) ∧ (∀ p ∈ d.anc, p.1 ≠ [] ∧ ∀ w ∈ p.2, w.reading = p.1)
-
-def isVirt : Node → Bool
-  | .virt _ _ _ _ => true
-  | _ => false
-
-def nodeReading : Node → Str
-  | .word _ _ w _ => w.reading
-  | .virt _ _ s _ => s
-  | _ => []
-
-/-- Full-strength statement of the tiling property. -/
-def C01_statement : Prop :=
-  ∀ (t : Tables) (input : Str) (d : Dict) (ctx : Ctx) (f : Freq) (n fuel : Nat) (cs : List Cand),
-    Dict.WF d → input ≠ [] → 1 ≤ n → getCandidates t input d ctx f n fuel = some cs →
-    ∀ c ∈ cs, ∃ (mid : List Node), c.chain = Node.bos :: (mid ++ [Node.eos]) ∧ mid ≠ [] ∧
-      (mid.map nodeReading).flatten = input ∧ c.text = (mid.map Node.text).flatten ∧
-      (∀ m ∈ mid.dropLast, isVirt m = false) ∧ (∀ m ∈ mid, m ≠ .bos ∧ m ≠ .eos)
+/-- **C01.** For every well-formed dictionary (every word stored under its own non-empty reading — true of
+every dictionary the builder and the server's updater produce: C11_sound), every non-empty input, context,
+learned-count state, `n` and search budget, each returned candidate is `bos :: mid ++ [eos]` where
+ * `mid` is non-empty and consists of lattice nodes,
+ * the readings of `mid` concatenated are exactly the input,
+ * the candidate text is the concatenation of the written forms of `mid`,
+ * every node of `mid` except possibly the last is a dictionary word (only the tail may be unconverted),
+ * the first node of `mid` is a dictionary word (conversion starts at the first character). -/
+theorem C01 (t : Tables) (input : Str) (d : Dict) (ctx : Ctx) (f : Freq) (n fuel : Nat) (cs : List Cand)
+    (hd : Dict.WF d) (hin : input ≠ []) (h : getCandidates t input d ctx f n fuel = some cs) :
+    ∀ c ∈ cs, ∃ mid : List Node, c.chain = Node.bos :: (mid ++ [Node.eos]) ∧ mid ≠ [] ∧
+      readings mid = input ∧ c.text = (mid.map Node.text).flatten ∧
+      (∀ m ∈ mid.dropLast, isWord m = true) ∧ (∃ hd tl, mid = hd :: tl ∧ isWord hd = true) ∧
+      (∀ m ∈ mid, m ≠ .bos ∧ m ≠ .eos) := by
+  intro c hc
+  unfold getCandidates at h
+  cases hg : fromInput t input d ctx with
+  | none => simp [hg] at h
+  | some g =>
+    simp only [hg, Option.map_some, Option.some.injEq] at h
+    subst h
+    have hg0 := fromInput_ok t input d ctx hd g hg
+    have hg1 := forwardDp_ok t ctx f input g hg0
+    have hn : 0 < input.length := List.length_pos_iff.2 hin
+    obtain ⟨hchain, r, hr⟩ := nBest_chains t ctx f _ n fuel c hc
+    rw [hr] at hchain
+    obtain ⟨mid, hmid, hne, hread, hinG, hwords, hfirst⟩ := chain_tiles input _ hg1 hn r hchain
+    refine ⟨mid, by rw [hr, hmid], hne, hread, ?_, hwords, hfirst, ?_⟩
+    · simp [Cand.text, hr, hmid, Node.text]
+    · intro m hm
+      have hok := (inG_ok input _ hg1 m (hinG m hm)).1
+      constructor <;> (intro he; subst he; exact hok)
 
 /-- The candidate text is the concatenation of the parts' written forms (by definition of `Display`). -/
 theorem C01_text (c : Cand) : c.text = (c.chain.map Node.text).flatten := rfl
 
-/-- Words found for a key carry exactly the key as their reading (under `Dict.WF`). -/
+/-- The hypothesis of `C01` is met: words found by a look-up carry exactly the looked-up key as reading. -/
 theorem C01_lookup_reading (d : Dict) (h : Dict.WF d) (key : Str) (w : Word) :
     (w ∈ lookup d.stdTrie d.std key → w.reading = key ∧ key ≠ []) ∧
     (w ∈ lookup d.ancTrie d.anc key → w.reading = key ∧ key ≠ []) := by
@@ -45,5 +58,18 @@ theorem C01_lookup_reading (d : Dict) (h : Dict.WF d) (key : Str) (w : Word) :
   · intro hw
     obtain ⟨_, ws, hm, hws⟩ := lookup_sound _ _ key w hw
     exact ⟨(h.2 _ hm).2 w hws, (h.2 _ hm).1⟩
+
+/-- Non-vacuity: the repository's own example sentence with its test dictionary (車 / 来る / 繰る, まで, で). -/
+def exTables : Tables :=
+  { wordEdges := Chokan.Gen.Kkc.wordEdges, virtEdges := Chokan.Gen.Kkc.virtEdges, headEdges := Chokan.Gen.Kkc.headEdges,
+    mergeHead := Chokan.Gen.Kkc.mergeHead, properBonus := Chokan.Gen.Kkc.properBonus }
+def exDict : Dict :=
+  { std := [([0x304F, 0x308B, 0x307E], [⟨[0x8ECA], [0x304F, 0x308B, 0x307E], .noun .common⟩])],
+    stdTrie := [[0x304F, 0x308B, 0x307E]],
+    anc := [([0x3067], [⟨[0x3067], [0x3067], .particle .case⟩])], ancTrie := [[0x3067]] }
+example : Dict.WF exDict := by
+  constructor <;> intro p hp <;> simp [exDict] at hp <;> subst hp <;> simp
+example : (getCandidates exTables [0x304F, 0x308B, 0x307E, 0x3067] exDict .normal [] 3 100).map (·.map Cand.text) =
+    some [[0x8ECA, 0x3067]] := by decide +kernel
 
 end Chokan.Props.C01
